@@ -22,7 +22,7 @@ from specmc.sandbox import Sandbox
 ID = "C11"
 LEVEL = "model_checking"
 RULE = ("programs = the C01 core matrix (kind x position x required x nullable x literal_enums), the C03 body matrix, the C04 response "
-        "tables, and name-shape documents (a property named like its class's module); each program is (1) type-checked by mypy under "
+        "tables, and name-shape documents (a property named like its class's module), every reference graph of 2 schemas with <=2 edges (thorough: <=4, and 3 schemas <=2), one model as body under every ordered selection of 2-3 media types (separate operations / one operation); each program is (1) type-checked by mypy under "
         "the repository's own [tool.mypy] settings, in batches; (2) executed: every attribute of every object decoded from RM-inst "
         "instances and every parsed response must conform to its annotation (structural conformance checker); (3) every value of a "
         "bounded enumeration of each annotation's inhabitants must be accepted by to_dict / the request builder; non-trivial = a "
@@ -42,6 +42,8 @@ def programs(tier):
     from checks import c01, c03, c04
     out = []
     for c in c01._matrix():
+        if "v=3.0.3" in c["labels"]:
+            continue        # C01 runs the 3.0 twins; the generated text of these is identical
         p = c["payload"]
         out.append(("m:" + "|".join(c["labels"]), "matrix/" + p["key"] + ("/lit" if p["options"].get("literal_enums") else ""), p["doc"], p["options"], {"kind": "matrix", "labels": c["labels"]}))
     for c in c03._body_cases():
